@@ -1,6 +1,7 @@
 package props
 
 import (
+	"bytes"
 	"fmt"
 	"github.com/jf-tech/omniparser/idr"
 	"regexp"
@@ -90,8 +91,41 @@ func inputProbes(c *Ctx, w *world.World) {
 	}
 }
 
+// padLastLine removes the line terminator of the input's last line and pads that line to exactly
+// n bytes: a line that fills the line reader's buffer to the last byte, with the end of the input
+// (delivered with the last bytes or in a Read of its own) instead of a terminator behind it.
+func padLastLine(c *Ctx, w *world.World, n int) {
+	in := bytes.TrimRight(w.Input, "\r\n")
+	st := bytes.LastIndexByte(in, '\n') + 1
+	last := in[st:]
+	if len(last) == 0 || len(last) >= n {
+		return
+	}
+	for _, b := range last {
+		if b >= 0x80 {
+			return // the charset decoder would change the line's length
+		}
+	}
+	if st == 0 && bytes.HasPrefix(in, bom) {
+		n += len(bom)
+	}
+	w.Input = append(append([]byte{}, in...), bytes.Repeat([]byte{'z'}, n-len(last))...)
+	if k := len(w.Recs); k > 0 {
+		w.Recs[k-1].End = len(w.Input)
+	}
+	w.SetTag("last-line-fills-buffer", "1")
+	w.Name += fmt.Sprintf("+last-line-%d-bytes-unterminated", n)
+	c.Hit("input.unterminated-last-line-of-exactly-k-times-4096-bytes")
+}
+
 func runC09(c *Ctx) []Violation {
 	w := pickWorld(c, worldOpts{CorpusWeight: 1, GenWeight: 3, Encodings: true})
+	switch w.Format {
+	case "csv", "csv2", "fixed-length", "fixedlength2":
+		if c.T.Chance("c09.last-line-fills-buffer", 1, 6) {
+			padLastLine(c, w, 4096*(1+c.T.Intn("c09.last-line-fills-buffer.k", 2)))
+		}
+	}
 	env := baseEnv(c)
 	c.Note("world %s (format %s, schema %d bytes, input %d bytes); env %s", w.Name, w.Format, len(w.Schema), len(w.Input), env)
 	inputProbes(c, w)
